@@ -1,0 +1,115 @@
+//! Verification hooks (compiled only with `--cfg huggingface_xet_core_verif`).
+//!
+//! `sched_point(label)` is a no-op unless the calling thread has been registered with a
+//! [`Controller`]; a registered thread parks at every point until the controller grants it, so a
+//! test driver owns the interleaving of the registered threads (exactly one runs at a time).
+//! `random_u64()` lets the driver replace entropy-based choices by a seeded sequence.
+
+use std::cell::RefCell;
+use std::collections::BTreeMap;
+use std::sync::{Arc, Condvar, Mutex};
+
+#[derive(Default)]
+struct State {
+    parked: BTreeMap<usize, &'static str>,
+    finished: Vec<usize>,
+    granted: Option<usize>,
+    registered: usize,
+    trace: Vec<(usize, &'static str)>,
+}
+
+pub struct Controller {
+    expected: usize,
+    state: Mutex<State>,
+    cv: Condvar,
+}
+
+thread_local! {
+    static CURRENT: RefCell<Option<(Arc<Controller>, usize)>> = const { RefCell::new(None) };
+}
+
+static GLOBAL_RNG: Mutex<Option<u64>> = Mutex::new(None);
+
+impl Controller {
+    pub fn new(n_threads: usize) -> Arc<Self> {
+        Arc::new(Controller { expected: n_threads, state: Mutex::new(State::default()), cv: Condvar::new() })
+    }
+
+    /// Called by a worker thread before its first operation; parks at the point "start".
+    pub fn register_current_thread(self: &Arc<Self>, tid: usize) {
+        CURRENT.with(|c| *c.borrow_mut() = Some((self.clone(), tid)));
+        {
+            let mut st = self.state.lock().unwrap();
+            st.registered += 1;
+        }
+        self.park(tid, "start");
+    }
+
+    /// Called by a worker thread after its last operation.
+    pub fn finish_current_thread(&self) {
+        let tid = CURRENT.with(|c| c.borrow_mut().take()).map(|x| x.1);
+        if let Some(tid) = tid {
+            let mut st = self.state.lock().unwrap();
+            st.finished.push(tid);
+            self.cv.notify_all();
+        }
+    }
+
+    fn park(&self, tid: usize, label: &'static str) {
+        let mut st = self.state.lock().unwrap();
+        st.parked.insert(tid, label);
+        self.cv.notify_all();
+        while st.granted != Some(tid) {
+            st = self.cv.wait(st).unwrap();
+        }
+        st.granted = None;
+        st.parked.remove(&tid);
+        st.trace.push((tid, label));
+    }
+
+    /// Driver: wait until every registered thread is parked or finished; returns the parked ones.
+    pub fn wait_quiescent(&self) -> Vec<(usize, &'static str)> {
+        let mut st = self.state.lock().unwrap();
+        loop {
+            if st.granted.is_none() && st.registered == self.expected && st.parked.len() + st.finished.len() == self.expected {
+                return st.parked.iter().map(|(k, v)| (*k, *v)).collect();
+            }
+            st = self.cv.wait(st).unwrap();
+        }
+    }
+
+    /// Driver: let thread `tid` run until its next point (or its end).
+    pub fn grant(&self, tid: usize) {
+        let mut st = self.state.lock().unwrap();
+        st.granted = Some(tid);
+        self.cv.notify_all();
+    }
+
+    pub fn trace(&self) -> Vec<(usize, &'static str)> {
+        self.state.lock().unwrap().trace.clone()
+    }
+}
+
+#[inline]
+pub fn sched_point(label: &'static str) {
+    let cur = CURRENT.with(|c| c.borrow().clone());
+    if let Some((ctrl, tid)) = cur {
+        ctrl.park(tid, label);
+    }
+}
+
+/// Seed the replacement for entropy-based choices (None = use real entropy again).
+pub fn set_random_seed(seed: Option<u64>) {
+    *GLOBAL_RNG.lock().unwrap() = seed;
+}
+
+/// Next value of the seeded sequence, if a seed is installed.
+pub fn random_u64() -> Option<u64> {
+    let mut g = GLOBAL_RNG.lock().unwrap();
+    let s = g.as_mut()?;
+    *s = s.wrapping_add(0x9E3779B97F4A7C15);
+    let mut z = *s;
+    z = (z ^ (z >> 30)).wrapping_mul(0xBF58476D1CE4E5B9);
+    z = (z ^ (z >> 27)).wrapping_mul(0x94D049BB133111EB);
+    Some(z ^ (z >> 31))
+}
